@@ -170,7 +170,10 @@ def gen_layered(rng, nvars=None, per_layer=None, dom_max=None, cost_lo=-5, cost_
             I.rub.append((max(hs) + e) if hs else -1000)
         if not depth_free:
             pass
-    dk = dominance if dominance is not None else rng.choice([0, 0, 1, 2])
+    # default: no rule or the EXACT rule (coordinate = value-to-go, with values: strict dominance implies a strictly larger best).  Rules whose
+    # strict part can hold between states of equal best (dk = 2: an extra free coordinate) are generated on request only: they are subject to
+    # the known finding `dominance-circular-pruning` of C10
+    dk = dominance if dominance is not None else rng.choice([0, 0, 1, 1])
     if dk == 0:
         I.domkind = 0
     else:
